@@ -36,6 +36,9 @@ type scriptConn struct {
 	closed  bool
 	written [][]byte // one entry per Write call
 	reads   int
+	// readDeadline: a read deadline is armed; timeouts counts how often a Read timed out
+	readDeadline bool
+	timeouts     int
 }
 
 type fakeAddr struct{}
@@ -44,7 +47,7 @@ func (fakeAddr) Network() string { return "script" }
 func (fakeAddr) String() string  { return "script" }
 
 func (c *scriptConn) Read(p []byte) (int, error) {
-	verifrt.Wait("conn.Read", func() bool { return c.closed || c.pos < len(c.chunks) || c.failErr != nil })
+	verifrt.Wait("conn.Read", func() bool { return c.closed || c.pos < len(c.chunks) || c.failErr != nil || c.readDeadline })
 	c.reads++
 	if c.closed {
 		return 0, errors.New("use of closed network connection")
@@ -59,6 +62,11 @@ func (c *scriptConn) Read(p []byte) (int, error) {
 		}
 		verifrt.Observe(hashBytes(p[:n]))
 		return n, nil
+	}
+	if c.failErr == nil && c.readDeadline {
+		c.readDeadline = false // one expiry per arming
+		c.timeouts++
+		return 0, timeoutError{}
 	}
 	return 0, c.failErr
 }
@@ -79,15 +87,29 @@ func (c *scriptConn) Close() error {
 }
 func (c *scriptConn) LocalAddr() net.Addr                { return fakeAddr{} }
 func (c *scriptConn) RemoteAddr() net.Addr               { return fakeAddr{} }
-func (c *scriptConn) SetDeadline(t time.Time) error      { return nil }
-func (c *scriptConn) SetReadDeadline(t time.Time) error  { return nil }
+// Deadlines follow net.Conn: SetDeadline arms both directions. Time is virtual here and the peers of
+// a connection may be idle for as long as they like, so a Read that would block while a read
+// deadline is armed may time out at any moment the explorer chooses. (Write deadlines are not
+// modelled: a failed write ends the process by design and is outside the properties.)
+func (c *scriptConn) SetDeadline(t time.Time) error      { c.readDeadline = !t.IsZero(); return nil }
+func (c *scriptConn) SetReadDeadline(t time.Time) error  { c.readDeadline = !t.IsZero(); return nil }
 func (c *scriptConn) SetWriteDeadline(t time.Time) error { return nil }
+
+type timeoutError struct{}
+
+func (timeoutError) Error() string   { return "i/o timeout" }
+func (timeoutError) Timeout() bool   { return true }
+func (timeoutError) Temporary() bool { return true }
 
 func (c *scriptConn) key() uint64 {
 	h := uint64(c.pos)<<32 | uint64(len(c.written))<<8
 	if c.closed {
 		h |= 1
 	}
+	if c.readDeadline {
+		h |= 2
+	}
+	h ^= uint64(c.timeouts) << 4
 	if c.pos < len(c.chunks) {
 		h ^= uint64(len(c.chunks[c.pos])) << 48
 	}
@@ -218,6 +240,8 @@ type streamScenario struct {
 	// the kind recurs in its body (a keep-alive built once). AsBuffer: the objects are *util.Buffer
 	// values holding the pre-encoded bytes (the stream accepts any util.Message).
 	Reuse    bool  `json:"reuse_objects,omitempty"`
+	// ZeroXid: every submitted message carries transaction id 0 (asynchronous replies and raw frames do)
+	ZeroXid bool `json:"zero_xid,omitempty"`
 	AsBuffer bool  `json:"as_buffer,omitempty"`
 	OutSizes []int `json:"out_sizes,omitempty"`
 	OutKinds  []int   `json:"out_kinds,omitempty"` // outbound kind sweep: indices into the list of all encodable message kinds // outbound size sweep: total sizes of packet-outs submitted by one producer
@@ -371,6 +395,9 @@ func newStreamExplorer(sc streamScenario, alphabet []streamFrame, outAlphabet []
 					}
 					if h := bind.HeaderOf(m); h != nil {
 						h.Xid = 0xb0000000 | uint32(pi)<<16 | uint32(k)<<8 | uint32(kind) // distinct id per submission
+						if sc.ZeroXid {
+							h.Xid = 0
+						}
 					}
 					eb, err := m.MarshalBinary()
 					if err != nil {
